@@ -72,7 +72,7 @@ def _meta(t):
     names = list(c.name_to_uuid.keys())
     part = [c.uuid_to_name.get(u, "?hidden") for u in c.partition_by]
     hidden = sorted({col.name for u, col in c.cols.items() if u not in c.uuid_to_name})
-    return dict(names=names, part=part, hidden=hidden, sql=[int(c.limit), len(c.group_by), bool(c.is_filtered)],
+    return dict(names=names, part=part, hidden=hidden, sql=[-1 if c.limit is None else int(c.limit), len(c.group_by), bool(c.is_filtered)],
                 dts=[_family(c.cols[u].dtype()) for u in c.name_to_uuid.values()],
                 backend=c.backend.backend_name, ph=any(u not in c.uuid_to_name for u in c.partition_by),
                 marker=any(type(nd).__name__ == "SubqueryMarker" for nd in t._ast.iter_subtree_preorder()))
@@ -204,7 +204,7 @@ def _wrapped_call(orig):
                     ev.update(_meta(res))
                 else:
                     ev["out"] = 0
-                    ev.update(dict(names=[], part=[], hidden=[], sql=[0, 0, False], backend=arg._cache.backend.backend_name, ph=False, marker=False, dts=[]))
+                    ev.update(dict(names=[], part=[], hidden=[], sql=[-1, 0, False], backend=arg._cache.backend.backend_name, ph=False, marker=False, dts=[]))
                     if err == "" and name == "export":
                         cols = None
                         if hasattr(res, "collect_schema"):
